@@ -279,8 +279,9 @@ def compare_stats(c: Cmp, res):
 
 
 def compare_frame(c: Cmp, key: str, df, table: dict, exp: Expected):
-    c.same(f'{key}:columns', [str(x) for x in df.columns], list(table['cols']))
-    c.same(f'{key}:rows', [str(x) for x in df.index], list(table['rows']))
+    # which labels exist is part of the property, their order is not
+    c.same(f'{key}:columns', sorted(str(x) for x in df.columns), sorted(table['cols']))
+    c.same(f'{key}:rows', sorted(str(x) for x in df.index), sorted(table['rows']))
     have_cols, have_rows = set(df.columns), set(df.index)
     for r, col, F, kind, i, j in table['cells']:
         if r not in have_rows or col not in have_cols:
@@ -301,7 +302,7 @@ def compare_tables(c: Cmp, res):
         t = dict(cols=T['corr']['cols'], rows=[label], cells=[x for x in T['corr']['cells'] if x[0] == label])
         compare_frame(c, 'get_correlation_results(subset)', res.get_correlation_results(subset=sub), t, exp)
     g = res.get_general_statistics()
-    c.same('get_general_statistics:labels', list(g.keys()), [lab for lab, _ in T['general']])
+    c.same('get_general_statistics:labels', sorted(g.keys()), sorted(lab for lab, _ in T['general']))
     for lab, kind in T['general']:
         if lab in g:
             c.ref(f'get_general_statistics:{lab}', g[lab][0], exp, '-', kind)
@@ -333,8 +334,17 @@ def compare_compiled(c: Cmp, results: dict, exps: dict):
     from biogeme.results import compile_estimation_results
 
     cur = c.exp
-    for T in cur.rec['compiled']['tables']:
+    for v, T in enumerate(cur.rec['compiled']['tables']):
         ids = T['cols']
+        # each behaviour prints the column of its own model; the companions' columns come from theirs
+        cells = list(T['cells'])
+        for i in ids:
+            if i != cur.raw['id']:
+                Tc = exps[i].rec['compiled']['tables'][v]
+                assert (Tc['formatted'], Tc['std'], Tc['ttest']) == (T['formatted'], T['std'], T['ttest'])
+                cells += Tc['cells']
+        assert {col for _, col, _ in cells} == set(ids), 'a model without expected cells'
+        T = dict(T, cells=cells)
         stats_labels = []
         for r, col, parts in T['cells']:
             if parts[0][2] not in ('value', 'se', 't') and r not in stats_labels:
@@ -343,7 +353,7 @@ def compare_compiled(c: Cmp, results: dict, exps: dict):
         df, conf = compile_estimation_results(
             {i: results[i] for i in ids}, statistics=tuple(stats_labels), include_parameter_estimates=True,
             include_robust_stderr=T['std'], include_robust_ttest=T['ttest'], formatted=T['formatted'])
-        c.same(f'{key}:columns', [str(x) for x in df.columns], list(ids))
+        c.same(f'{key}:columns', sorted(str(x) for x in df.columns), sorted(ids))
         c.same(f'{key}:configurations', dict(conf), {i: i for i in ids})
         want_rows = []
         for r, col, parts in T['cells']:
@@ -356,7 +366,7 @@ def compare_compiled(c: Cmp, results: dict, exps: dict):
                 continue
             filled.add((r, col))
             got = df.at[r, col]
-            e = exps[ids[parts[0][0] - 1]]
+            e = exps[col]  # CompileNamed (checked by TLC): the parts of a cell belong to the model of its column
             is_stat = parts[0][2] not in ('value', 'se', 't')
             what = 'statistic' if is_stat else 'row ' + (r[r.index(' ('):] if ' (' in r else 'name')
             if not T['formatted'] or is_stat:
@@ -475,7 +485,29 @@ def replay(rec: dict, tamper: str | None = None) -> dict:
     compare_tables(c, res)
     compare_compiled(c, results, exps)
     compare_lrt(c, results, exps)
-    return dict(n=c.n, skipped=c.skipped, mismatches=c.mismatches)
+    return dict(n=c.n, skipped=c.skipped, mismatches=c.mismatches, digest=_digest(exp, res))
+
+
+def _digest(exp: Expected, res) -> dict:
+    """a few (expected, observed) pairs for the evidence file"""
+    d, out = res.data, {}
+
+    def put(label, got, F, kind, i=0, j=0):
+        st, want = exp.resolve(F, kind, i, j)
+        if st == 'ok':
+            out[label] = dict(expected=float(want), observed=None if got is None else float(got))
+
+    put('AIC', d.akaike, '-', 'AIC')
+    put('BIC', d.bayesian, '-', 'BIC')
+    put('rho-square-bar (init)', d.rhoBarSquare, '-', 'rhobar2')
+    b = d.betas[0]
+    put(f'{b.name}: robust std err', b.robust_stdErr, 'rob', 'se', 1)
+    put(f'{b.name}: bootstrap t-test', b.bootstrap_tTest, 'boot', 't', 1)
+    put(f'{b.name}: bootstrap p-value', b.bootstrap_pValue, 'boot', 'p', 1)
+    if exp.raw['K'] >= 2:
+        put('robust covariance (2,1)', d.robust_varCovar[1, 0], 'rob', 'cov', 2, 1)
+        put('classical correlation (2,1)', d.correlation[1, 0], 'cls', 'corr', 2, 1)
+    return out
 
 
 def describe(raw: dict) -> str:
